@@ -10,7 +10,7 @@ from .relocations import BImm20Relocation
 from ..generic_instructions import ArtificialInstruction
 from .instructions import Andr, Orr, Xorr, Subr, Addi, Slli, Srli
 from .instructions import Lw, Sw, Blt, Bgt, Bge, Beq, Bne, Ble, Blr
-from .instructions import Bgtu, Bltu, Bgeu, Bleu
+from .instructions import Bgtu, Bltu, Bgeu, Bleu, extend_narrow_value
 
 
 class RegisterSet(set):
@@ -791,9 +791,35 @@ def pattern_stri32_addi32(context, tree, c0, c1):
     context.emit(Swv(c1, offset, c0))
 
 
+@rvcisa.pattern("stm", "CJMPI16(reg, reg)", size=10)
+def pattern_cjmpi16(context, tree, c0, c1):
+    c0 = extend_narrow_value(context, c0, 16, True)
+    c1 = extend_narrow_value(context, c1, 16, True)
+    pattern_cjmp(context, tree, c0, c1)
+
+
+@rvcisa.pattern("stm", "CJMPI8(reg, reg)", size=10)
+def pattern_cjmpi8(context, tree, c0, c1):
+    c0 = extend_narrow_value(context, c0, 8, True)
+    c1 = extend_narrow_value(context, c1, 8, True)
+    pattern_cjmp(context, tree, c0, c1)
+
+
+@rvcisa.pattern("stm", "CJMPU16(reg, reg)", size=10)
+def pattern_cjmpu16(context, tree, c0, c1):
+    c0 = extend_narrow_value(context, c0, 16, False)
+    c1 = extend_narrow_value(context, c1, 16, False)
+    pattern_cjmpu(context, tree, c0, c1)
+
+
+@rvcisa.pattern("stm", "CJMPU8(reg, reg)", size=10)
+def pattern_cjmpu8(context, tree, c0, c1):
+    c0 = extend_narrow_value(context, c0, 8, False)
+    c1 = extend_narrow_value(context, c1, 8, False)
+    pattern_cjmpu(context, tree, c0, c1)
+
+
 @rvcisa.pattern("stm", "CJMPI32(reg, reg)", size=2)
-@rvcisa.pattern("stm", "CJMPI16(reg, reg)", size=2)
-@rvcisa.pattern("stm", "CJMPI8(reg, reg)", size=2)
 def pattern_cjmp(context, tree, c0, c1):
     op, yes_label, no_label = tree.value
     opnames = {"<": Blt, ">": Bgt, "==": Beq, "!=": Bne, ">=": Bge, "<=": Ble}
@@ -803,8 +829,6 @@ def pattern_cjmp(context, tree, c0, c1):
     context.emit(jmp_ins)
 
 
-@rvcisa.pattern("stm", "CJMPU8(reg, reg)", size=2)
-@rvcisa.pattern("stm", "CJMPU16(reg, reg)", size=2)
 @rvcisa.pattern("stm", "CJMPU32(reg, reg)", size=2)
 def pattern_cjmpu(context, tree, c0, c1):
     op, yes_label, no_label = tree.value
